@@ -67,6 +67,12 @@ pub fn edits(prog: &Program, tier: Tier) -> Vec<Edit> {
             let dropped: Vec<String> = names_ever(prog, &frames).into_iter().filter(|c| !present.contains(c)).take(2).collect();
             for c in &dropped {
                 let mut uses = vec![format!("filter {c} > 1"), format!("derive {{zz = {c} + 1}}")];
+                // positions whose value the compiler can decide without the operand: an arm of `case` behind a
+                // constant condition, the operand a constant makes irrelevant — the reference is ill-scoped all the same
+                uses.push(format!("derive {{zz = case [false => {c}, true => 1]}}"));
+                uses.push(format!("derive {{zz = case [true => 1, true => {c} + 1]}}"));
+                uses.push(format!("filter false && ({c} > 1)"));
+                uses.push(format!("derive {{zz = 1 ?? {c}}}"));
                 if tier == Tier::Thorough {
                     uses.push(format!("sort {{{c}}}"));
                     uses.push(format!("select {{{c}}}"));
